@@ -108,7 +108,8 @@ fn entry_json(e: &EntryRec) -> Value {
     let hasup = e.flags & 4 != 0;
     let hasbf = e.flags & 8 != 0;
     let nodes: Vec<Value> = match e.fields.get("nodes") {
-        Some(Val::L(v)) => v.iter().map(|n| json!([fu(n, "index"), fu(n, "size")])).collect(),
+        // (the reader does not need them; long lists are left out of the trace)
+        Some(Val::L(v)) if v.len() <= 64 => v.iter().map(|n| json!([fu(n, "index"), fu(n, "size")])).collect(),
         _ => vec![],
     };
     json!({
